@@ -1384,6 +1384,169 @@ fn directed_case(
     None
 }
 
+//============ life cycle: creation, removal and re-creation under contention ==
+
+/// An entity is created, removed and created again (a CA or publisher that is
+/// deleted and set up again under the same name) by several threads at once,
+/// with commands in between. Whatever the interleaving: the entity exists at
+/// most once, so every successful creation needs the entity to be absent -
+/// absent at the start or after a removal. Hence
+///   successful creations <= 1 + removal calls,
+/// a returned state only carries ids whose appends were acknowledged or are
+/// still in flight, never one id twice, and what an instance opened afresh
+/// loads is what the last acknowledged command returned.
+fn lifecycle_case(
+    r: &mut Report, args: &Args, case: u64, rng: &mut Rng,
+) -> Option<(String, String, Value)> {
+    let memory = rng.chance(1, 3);
+    let threads = rng.range(3, 6) as usize;
+    let per_thread = rng.range(4, 9) as usize;
+    YIELD_SEED.store(rng.next(), Ordering::Relaxed);
+    YIELD_HOT.store(case % 2, Ordering::Relaxed);
+    let dir = args.work.join(format!("life{case}"));
+    let _ = std::fs::remove_dir_all(&dir);
+    let storage = Arc::new(if memory {
+        StorageSystem::new_memory(Some(case ^ args.shard_seed() ^ 0x11fe))
+    } else {
+        std::fs::create_dir_all(&dir).unwrap();
+        StorageSystem::new_disk(dir.clone())
+    });
+    let ns = Ident::from_str("toylife").unwrap();
+    let store = Arc::new(AggregateStore::<Log>::create(&storage, ns, false)
+        .expect("store"));
+    let actor = Actor::user("verif-client");
+    let hdl = MyHandle::from_str("d0").unwrap();
+    let desc = json!({"part": "lifecycle", "memory": memory,
+                      "threads": threads, "per_thread": per_thread});
+    kvh::util::mark_inflight(&args.out, &json!({
+        "what": "toy life cycle", "desc": desc, "exit_is_violation": true,
+        "signature": "process-exit:command-key-already-exists"
+    }));
+    let recs: Arc<Mutex<Vec<Rec>>> = Arc::new(Mutex::new(vec![]));
+    let next_id = Arc::new(AtomicU64::new(1));
+    let barrier = Arc::new(std::sync::Barrier::new(threads));
+    let mut joins = vec![];
+    for t in 0..threads {
+        let store = store.clone();
+        let hdl = hdl.clone();
+        let recs = recs.clone();
+        let next_id = next_id.clone();
+        let actor = actor.clone();
+        let barrier = barrier.clone();
+        let mut trng = Rng::new(rng.next());
+        joins.push(std::thread::spawn(move || {
+            TL_ID.with(|x| x.set(t as u64 + 1));
+            barrier.wait();
+            for seq in 0..per_thread {
+                let id = next_id.fetch_add(1, Ordering::SeqCst);
+                let choice = if seq == 0 { 0 } else {
+                    trng.weighted(&[40, 22, 38])
+                };
+                let (kind, ok, items, err): (&'static str, bool,
+                    Option<Vec<u64>>, Option<String>) = match choice {
+                    0 => match store.add(SentInitCommand::new(
+                        hdl.clone(), LogInitDetails, &actor))
+                    {
+                        Ok(a) => ("create", true, Some(a.items.clone()), None),
+                        Err(e) => ("create", false, None, Some(e.to_string())),
+                    },
+                    1 => match store.drop_aggregate(&hdl) {
+                        Ok(()) => ("remove", true, None, None),
+                        Err(e) => ("remove", false, None, Some(e.to_string())),
+                    },
+                    _ => match store.command(SentCommand::new(
+                        hdl.clone(), None, LogCmd::Append(id), &actor))
+                    {
+                        Ok(a) => ("append", true, Some(a.items.clone()), None),
+                        Err(e) => ("append", false, None, Some(e.to_string())),
+                    },
+                };
+                recs.lock().unwrap().push(Rec {
+                    thread: t, seq, entity: "d0".into(), kind, id, ok,
+                    version: None, items, err,
+                });
+            }
+        }));
+    }
+    let mut panicked = false;
+    for j in joins { if j.join().is_err() { panicked = true } }
+    let recs = recs.lock().unwrap().clone();
+    let wit = |extra: Value| json!({"desc": desc, "records": recs.iter()
+        .take(80).collect::<Vec<_>>(), "extra": extra});
+    if panicked {
+        return Some(("panic-in-store".into(),
+            "a worker thread panicked inside the store (life cycle)".into(),
+            wit(json!({}))))
+    }
+    r.eval();
+    r.count("lifecycle_cases", 1);
+    let creations = recs.iter().filter(|x| x.kind == "create" && x.ok).count();
+    let removals = recs.iter().filter(|x| x.kind == "remove").count();
+    r.count("lifecycle_creations_acknowledged", creations as u64);
+    r.nontrivial(format!("lifecycle:mem={memory}:creations={}:removals={}",
+                         creations.min(4), removals.min(4)));
+    if creations > 1 + removals {
+        return Some((
+            "entity-created-while-it-exists".into(),
+            format!("{creations} creations of d0 were acknowledged with only \
+                     {removals} removal call(s): an entity was created while \
+                     it existed"),
+            wit(json!({"creations": creations, "removals": removals}))))
+    }
+    // returned states: a fresh entity is empty, no id twice, only ids that
+    // were sent
+    let sent: std::collections::BTreeSet<u64> = recs.iter()
+        .filter(|x| x.kind == "append").map(|x| x.id).collect();
+    for x in &recs {
+        r.eval();
+        let Some(items) = &x.items else { continue };
+        if x.kind == "create" && !items.is_empty() {
+            return Some(("created-entity-not-empty".into(),
+                format!("{x:?}"), wit(json!({}))))
+        }
+        let set: std::collections::BTreeSet<u64> = items.iter().cloned().collect();
+        if set.len() != items.len() {
+            return Some(("command-applied-twice".into(),
+                format!("life cycle: {x:?}"), wit(json!({}))))
+        }
+        if x.kind == "append" && items.last() != Some(&x.id) {
+            return Some(("acknowledged-state-without-own-command".into(),
+                format!("life cycle: {x:?}"), wit(json!({}))))
+        }
+        if let Some(bad) = items.iter().find(|i| !sent.contains(i)) {
+            return Some(("state-carries-unknown-command".into(),
+                format!("life cycle: id {bad} in {x:?}"), wit(json!({}))))
+        }
+    }
+    // what is stored loads, in this instance and in one opened afresh, and
+    // both agree
+    let live = store.has(&hdl).ok().and_then(|h| {
+        if h { Some(store.get_latest(&hdl).map(|a| a.items.clone())
+                    .map_err(|e| e.to_string())) } else { None }
+    });
+    let fresh_store = AggregateStore::<Log>::create(&storage, ns, false)
+        .expect("store");
+    let fresh = fresh_store.has(&hdl).ok().and_then(|h| {
+        if h { Some(fresh_store.get_latest(&hdl).map(|a| a.items.clone())
+                    .map_err(|e| e.to_string())) } else { None }
+    });
+    r.eval();
+    match (&live, &fresh) {
+        (Some(Err(e)), _) | (_, Some(Err(e))) => {
+            return Some(("entity-does-not-load-after-life-cycle".into(),
+                e.clone(), wit(json!({}))))
+        }
+        (a, b) if a != b => {
+            return Some(("fresh-instance-diverges-after-life-cycle".into(),
+                format!("running instance: {a:?}; instance opened afresh: {b:?}"),
+                wit(json!({}))))
+        }
+        _ => {}
+    }
+    let _ = std::fs::remove_dir_all(&dir);
+    None
+}
+
 fn main() {
     let args = Args::parse();
     let mut r = Report::new("C07", &args);
@@ -1405,6 +1568,12 @@ fn main() {
             if case % 3 == 0 {
                 case += 1;
                 if let Some((s, d, w)) = wal_history(&mut r, &args, case, &mut rng) {
+                    r.violation(&s, &d, w);
+                }
+            }
+            if case % 4 == 1 {
+                case += 1;
+                if let Some((s, d, w)) = lifecycle_case(&mut r, &args, case, &mut rng) {
                     r.violation(&s, &d, w);
                 }
             }
